@@ -57,19 +57,33 @@ func c01body(c c01cfg) func(x *vsched.Exec) {
 		}
 		var calls []*c01call
 		var published, received []string
+		for _, ops := range c.callers {
+			for _, op := range ops {
+				if op == "recv2" {
+					fired := false
+					e.srv.BetweenPushes = func(ss *simredis.Session, kind, channel string) {
+						if !fired {
+							fired = true
+							e.srv.Publish(channel, "m0", false)
+							published = append(published, "m0")
+						}
+					}
+				}
+			}
+		}
 		for ci, ops := range c.callers {
 			ci, ops := ci, ops
 			who := fmt.Sprintf("c%d", ci)
 			needCancel := false
 			for _, op := range ops {
-				if strings.HasSuffix(op, "cancel") || op == "recv" {
+				if strings.HasSuffix(op, "cancel") || op == "recv" || op == "recv2" {
 					needCancel = true
 				}
 			}
 			cctx, cancel := context.WithCancel(context.Background())
 			if needCancel {
 				vsched.GoNamed(who+".canceller", func() {
-					if len(ops) == 1 && ops[0] == "recv" {
+					if len(ops) == 1 && (ops[0] == "recv" || ops[0] == "recv2") {
 						e.srv.Publish("ch", "m1", false)
 						published = append(published, "m1")
 						vsched.Point("publisher", nil)
@@ -127,6 +141,13 @@ func c01body(c c01cfg) func(x *vsched.Exec) {
 								call.err = err
 							}
 						}
+					case "recv2":
+						// two channels in one SUBSCRIBE; the environment lets a message land between the two confirmations
+						call.canceled = true
+						call.kind = "recv"
+						call.err = e.client.Receive(cctx, b.Subscribe().Channel("ch", "ch2").Build(), func(m PubSubMessage) {
+							received = append(received, m.Message)
+						})
 					case "recv":
 						call.canceled = true
 						call.err = e.client.Receive(cctx, b.Subscribe().Channel("ch").Build(), func(m PubSubMessage) {
@@ -209,8 +230,12 @@ func TestVerif_C01(t *testing.T) {
 			{name: "cache+do", callers: [][]string{{"cache"}, {"do"}}},
 			{name: "mcache2+cache", callers: [][]string{{"mcache2"}, {"cache"}}},
 			{name: "docancel+do,do", callers: [][]string{{"docancel"}, {"do", "do"}}},
+			{name: "always/docancel,do+do", callers: [][]string{{"docancel", "do"}, {"do"}}, always: true},
+			{name: "always/multicancel,multi2+do", callers: [][]string{{"multicancel", "multi2"}, {"do"}}, always: true},
 			{name: "multicancel+do", callers: [][]string{{"multicancel"}, {"do"}}},
 			{name: "recv+do", callers: [][]string{{"recv"}, {"do"}}},
+			{name: "recv2+do,do", callers: [][]string{{"recv2"}, {"do", "do"}}},
+			{name: "resp2/recv2+do,do", callers: [][]string{{"recv2"}, {"do", "do"}}, resp2: true},
 			{name: "always/2x(do,do)", callers: [][]string{{"do", "do"}, {"do", "do"}}, always: true},
 			{name: "flow/2x(do,do)", callers: [][]string{{"do", "do"}, {"do", "do"}}, flow: true},
 			{name: "flow/docancel+do,do", callers: [][]string{{"docancel"}, {"do", "do"}}, flow: true},
